@@ -134,8 +134,10 @@ def coq_ftab(values):
     for v in values:
         floats_in(v, acc)
     for (_, lex) in acc:
-        # validated hypothesis: a float lexeme is ASCII and contains '.', 'e', 'inf' or 'nan'
-        assert lex.isascii() and any(t in lex for t in (".", "e", "inf", "nan")), lex
+        # validated hypotheses of CanonChars.canon_injective about float.__repr__ on finite floats:
+        # number characters only, starts with a digit or '-', never an integer lexeme
+        assert set(lex) <= set("0123456789.e+-") and (lex[0] == "-" or lex[0].isdigit()), lex
+        assert "." in lex or "e" in lex, lex
     # injectivity on this table
     assert len({me for me, _ in acc}) == len({lex for _, lex in acc}) == len(acc)
     items = [f"((({m})%Z, ({e})%Z), {coq_str(lex)})" for ((m, e), lex) in sorted(acc)]
